@@ -140,6 +140,7 @@ func init() {
 			ruleL7sel(r, func(f string) bool { return f == "column.columnEnum.data" || f == "column.columnEnum.seek" }, false)
 			guard(r, func() { ruleSetQueued(r) })
 			guard(r, func() { ruleRowDelete(r) }) // "absent if nothing was stored since the row was inserted": deletes sweep every column
+			guard(r, func() { ruleRegistryLists(r) }) // that sweep walks the registry without a lock: an entry shifted in place is skipped
 			guard(r, func() { foundation(r) })
 			guard(r, func() { ruleFootprint(r, "E.footprint", footSel("(column.rw", "(column.rd", "(column.Row)."), 40) })
 			guard(r, func() { ruleMergeReentrant(r) }) // a merge that decodes into state shared by all blocks stores another row's value
@@ -198,6 +199,7 @@ func init() {
 			guard(r, func() { ruleL3f(r, only("(*column.Txn).With", "(*column.Txn).Union", "(*column.Txn).Range", "(column.rdNumber[T])."), 10) })
 			guard(r, func() { foundation(r) })
 			guard(r, func() { ruleFootprint(r, "E.footprint", footSel("(*column.Txn).With", "(*column.Txn).Union", "(*column.Txn).Count", "(*column.Txn).Range", "(*column.Txn).Ascend", "(*column.Txn).DeleteAt", "(*column.Txn).DeleteAll", "(column.rdNumber[T])."), 12) })
+			guard(r, func() { ruleExtremeFold(r) })
 		}})
 	register(&PropSpec{ID: "C05",
 		Explanation: "Buffer/commit/log round-trip — structural skeleton only (most of this property is about byte values and is not decidable statically). (C05.flags) writers and reader agree on header flags, size tags and payload widths, decided per arm; (C05.varint) writer loop and the reader's five stages agree; (C05.header) block headers written on block change, reader restarts the offset chain from them; (C05.copy) clones and resets cover every field, clones share no slice; (C01.width) Put/read/Swap widths per kind, swap retags as Put; (C03.order) replay never appends to the buffer." + staticNote,
@@ -216,6 +218,7 @@ func init() {
 			guard(r, func() { ruleDecodeFresh(r) })
 			guard(r, func() { ruleWireGrammar(r) })
 			guard(r, func() { ruleSerialisersReadOnly(r) })
+			guard(r, func() { ruleRangeCountAgrees(r) })
 		}})
 	register(&PropSpec{ID: "C06",
 		Explanation: "Replica convergence — structural part. (L5.emit) every append to logger/recorder happens under the block's exclusive latch, so per block emission order = apply order for all schedules; (C06.emitorder) emission after updates and markers were applied (merges rewritten); (C06.emitfields) the emitted commit names this block, the drawn id and the transaction's buffers; (C06.clone, C05.copy) the channel logger sends a deep clone, the file logger serialises synchronously; (C06.replay) Replay marks the commit's block and queues every non-empty buffer through a transaction; (C03.order) no replay-time append reorders operations; (C01.arms) Merge arms swap in the final value." + staticNote,
@@ -246,6 +249,8 @@ func init() {
 			guard(r, func() { ruleFootprint(r, "E.footprint", footSel("(*column.Collection).Replay", "(*column.Collection).Query"), 2) })
 			guard(r, func() { ruleWireGrammar(r) })
 			guard(r, func() { ruleEmitOnce(r) }) // a commit that is applied but not emitted never reaches the replica
+			guard(r, func() { ruleCommitWritesOwnChunk(r) })
+			guard(r, func() { ruleRangeCountAgrees(r) })
 			guard(r, func() { ruleSerialisersReadOnly(r) })
 		}})
 	register(&PropSpec{ID: "C07",
@@ -275,6 +280,7 @@ func init() {
 			guard(r, func() { ruleFootprint(r, "E.footprint", footSel("(*column.Collection).Snapshot", "(*column.Collection).Restore"), 2) })
 			guard(r, func() { ruleWireGrammar(r) })
 			guard(r, func() { ruleSnapshotComplete(r) })
+			guard(r, func() { ruleL5emit(r) }) // a commit applied before Snapshot returned and recorded nowhere is a row that differs after Restore
 		}})
 	register(&PropSpec{ID: "C08",
 		Explanation: "Snapshot under concurrent commits is a consistent cut — structural part. (L5.id) the commit id is drawn, stored and handed on while the block's exclusive latch is held (so per block id order = apply order for all schedules); (L5.emit) the recorder append and the recording test happen under that latch; (C08.read) the snapshot reads id, fill slice and columns of a block under the block latch and the collection mutex; (C08.order) recorder opened before the state is written, log copied after; (C08.replay) restore replays exactly the commits whose id is not below the block's stored id; (C02.isolation) the fill slice read contains only committed rows; (L4) commit-id table discipline." + staticNote,
@@ -297,6 +303,12 @@ func init() {
 			guard(r, func() { ruleL1(r, backfillExempt) })
 			guard(r, func() { foundation(r) })
 			guard(r, func() { ruleFootprint(r, "E.footprint", footSel("(*column.Collection).Snapshot", "(*column.Collection).Restore", "(*column.Collection).Query"), 3) })
+			// the commits recorded during the snapshot travel through the commit codec: one that drops or
+			// misplaces a section loses a commit from the middle or applies it partially
+			guard(r, func() { ruleWireGrammar(r) })
+			guard(r, func() { ruleRangeCountAgrees(r) })
+			guard(r, func() { ruleCommitWritesOwnChunk(r) })
+			guard(r, func() { ruleSerialisersReadOnly(r) })
 		}})
 	register(&PropSpec{ID: "C09",
 		Explanation: "Concurrent merges are never lost — structural part. (C01.arms …/Merge/rmw) in every Merge arm the old value is loaded from the element that is stored, merged with the delta read from the buffer, and swapped back into the buffer, inside one Apply body; (L1) every Apply runs under the block's exclusive latch on every call path, so the read-modify-write is atomic per block for all schedules; (C09.queue) every Merge accessor queues the delta and reads nothing." + staticNote,
@@ -378,6 +390,9 @@ func init() {
 			guard(r, func() { ruleSerialFields(r) })
 			guard(r, func() { ruleDecodeFresh(r) })
 			guard(r, func() { ruleFootprint(r, "E.footprint", footSel("(*column.Collection).Restore"), 1) })
+			// "block states plus a prefix of whole commits": the id written with a block is the one read
+			// with it, else a cut between two recorded commits replays the older over a block that holds the newer
+			guard(r, func() { ruleReadChunk(r) })
 		}})
 	register(&PropSpec{ID: "C14",
 		Explanation: "A failed snapshot reports the error and leaves the collection usable — structural part. (C14.pair) must-pass-through on Snapshot's flow graph: after the recorder was opened every exit uninstalls it, closes the temporary log and removes its file; losing the installation race cleans up; (C14.err) error-flow: no error on the state-writing path is discarded." + staticNote,
